@@ -1,28 +1,42 @@
 """Claims per property (imported by gen_manifest.py)."""
 MIXED = ('deductive part: the functions listed in the evidence file under functions_under_contract are verified for all inputs (obligations discharged by z3 / cvc5); '
          'bounded part (labelled bounded, never counted as proved): the document-level clauses are evaluated by executable contracts on scores generated from the reference spine-path model. ')
+STEP = ('Loop-step contracts: one iteration of a named loop of the real function from an arbitrary state (the whole-loop conclusion rests on the stated meta-argument, listed under assumptions). ')
 CLAIMED = {
-    'C01': ('other', MIXED + 'Proved: NoteRestToken / ChordToken / CompoundToken export == canonical rendering for any number of sub-tokens (pipe algebra), Kern/Ekern tokenizers, empty_row. '
+    'C01': ('other', MIXED + 'Proved: NoteRestToken / ChordToken / CompoundToken export == canonical rendering for any number of sub-tokens (pipe algebra), Kern/Ekern tokenizers, empty_row, '
+                             'get_kern_from_ekern, the listener functions that build the tokens (_add_decoration, exitNoteDecoration, exitRestDecoration, exitDuration, exitNote, exitRest, exitChord, exitBarline: contexts modelled by A-antlr-shapes). '
                              'Bounded: idempotence, extended round trip and canonicity of the whole import-export pipeline (ANTLR recognizer in the loop).', '4.1'),
-    'C02': ('other', 'Bounded stand-in only so far: Importer.run against the reference spine-path model (stages, nodes, parents, headers, spine ids, literal cell text, surplus cells rejected) on generated scores; '
-                     'the reader configuration and row loop are not yet under a discharged contract.', '4.2'),
-    'C03': ('other', MIXED + 'Proved: token export functions and tokenizers (cell text), empty_row. Bounded: cell-for-cell comparison of the default export with the generator\'s own description of every cell.', '4.3'),
+    'C02': ('other', MIXED + STEP + 'Proved: the cell step and the row step of Importer.run (one node per cell under the cell above, stage / header / operator propagation, token or ErrorToken, counters, parents shift), '
+                     'add_node, _compute_header_token, _compute_spine_operator_token, get_last_spine_operator, SignatureNodes.clone/update, import_string / import_file (reader options). '
+                     'Bounded: Importer.run as a whole against the reference spine-path model on generated scores.', '4.2'),
+    'C03': ('other', MIXED + STEP + 'Proved: token export functions and tokenizers (cell text), the listener exit functions (barlines lose only the number, notes / rests keep duration marks, pitch, accidental, signifiers, verbatim non-note cells), '
+                     'append_row, export_token, the row loop step of export_string (row = projection of the stage, placeholder-only rows dropped), empty_row. Bounded: cell-for-cell comparison of the default export with the generator\'s own description of every cell.', '4.3'),
     'C04': ('other', MIXED + 'Proved: the export of every token class, five of the six tokenizers (Bekern\'s note-by-note string surgery is outside the subset: bounded stand-in), TokenizerFactory, Encoding.prefix, '
-                             'HeaderTokenGenerator. Bounded: the six encodings of whole documents.', '4.4'),
-    'C05': ('other', MIXED + 'Proved: valid() == Clo(I) \\ Clo(E) for symbolic sets, parse_options_to_ExportOptions, append_row (spine gate, category gate, placeholder), export_token, the filter-is-deletion lemma for notes. '
-                             'Bounded: whole-document exports under include / exclude selections against a cell-level oracle.', '4.5'),
-    'C06': ('other', MIXED + 'Proved: append_row\'s spine gate, compute_header_type. Bounded: column projection on whole documents (the header propagation through splits and joins lives in Importer.run).', '4.6'),
-    'C07': ('other', MIXED + 'Proved: export_options_validator (ValueError iff out of range, nothing clamped). Bounded: measure ranges, partition, iteration on **kern scores.', '4.7'),
-    'C08': ('other', 'Bounded stand-in for the claimed core class (excerpt well-formed, re-imports, same governing signatures); the classes the property names as findings are listed in known_findings.jsonl.', '4.8'),
+                             'HeaderTokenGenerator, export_token, the two-call history lemma of Exporter.export_token. Bounded: the six encodings of whole documents; one Exporter object serving several requests.', '4.4'),
+    'C05': ('other', MIXED + STEP + 'Proved: valid() == Clo(I) \\ Clo(E) for symbolic sets, parse_options_to_ExportOptions, append_row (spine gate, category gate, placeholder), export_token (+ history lemma), the filter-is-deletion lemma for notes, '
+                             'the row loop step of export_string. Bounded: whole-document exports under include / exclude selections against a cell-level oracle.', '4.5'),
+    'C06': ('other', MIXED + STEP + 'Proved: append_row\'s spine gate, compute_header_type, header propagation in _compute_header_token / _compute_spine_operator_token, the row loop step of export_string (selected cells in node order). '
+                             'Bounded: column projection on whole documents.', '4.6'),
+    'C07': ('other', MIXED + STEP + 'Proved: export_options_validator (ValueError iff out of range, nothing clamped), the stage range of export_string at its row loop (cut-point contract), measures_count, get_first_measure, '
+                             'the measure-start rule of Importer.run (cell step: flag; row step: index append, last measure number). Bounded: measure ranges, partition, iteration on **kern scores.', '4.7'),
+    'C08': ('other', MIXED + 'Proved: Exporter.is_signature_cancelled (recursive equation: stages a..b only, every sub-spine, stops at notes and chords), cancellation clause of _compute_spine_operator_token. '
+                     'Bounded: excerpts of the claimed core class and of the explored class "signature changes outside the excerpt" (well-formed, re-import, same governing signatures); the classes the property names as findings are in known_findings.jsonl.', '4.8'),
     'C10': ('proof', 'Staff-position arithmetic for every octave: the seven clef tables, create_clef (any number of octave marks), compute_position, position rendering, gkern_to_g_clef_pitch, pitch_to_gkern_string, '
                      'the converter of the agnostic tokenizers on the real nested function (lemma callback_meaning), the agnostic branch of NoteRestToken.export, AEKern/AKern tokenizers, export_token with the clef in force.', '4.10'),
-    'C12': ('other', 'Bounded stand-in: damaged scores (one error per malformed cell with its line, other tokens untouched, verbatim export, history independence); residual class (barlines with trailing text) is a known finding.', '4.12'),
-    'C13': ('other', MIXED + 'Proved: the factorised per-cell pipeline (append_row / export_token contracts are written as spine gate, category gate, cell text), parse_options, explicit-default lemma. Bounded: whole-document composition.', '4.13'),
-    'C14': ('other', MIXED + 'Proved: frame obligations (modifies nothing that existed before the call) on every function under contract of the export path. Bounded: sequences of <= 12 read-only operations with deep snapshots.', '4.14'),
-    'C15': ('other', 'Bounded stand-in for the claimed core class (single notes without explicit accidentals) composed with the proved pitch transposition (C09); the three classes named by the property are known findings.', '4.15'),
-    'C17': ('other', 'Bounded stand-in: token listings against the recursive preorder of the tree, filtered / unique / frequency / comment queries, is_monophonic, on generated scores with global comments.', '4.17'),
-    'C18': ('proof', 'The seven non-kern import_token bodies and createImporter against one dispatch specification, with the outcome of the fresh inner kern importer as an uninterpreted function of the cell (assumed contract A-kern-outcome).', '4.18'),
-    'C19': ('other', 'Bounded stand-in: kern scores cut at barline positions; same document as the joined text, consecutive index pairs, pairs export their fragment.', '4.19'),
-    'C20': ('other', 'Bounded stand-in: load vs loads (LF / CRLF, final newline), dump vs dumps (missing directories), the command-line converters in single-file / directory / recursive mode against the API, ekern-kern-ekern round trip.', '4.20'),
+    'C12': ('other', MIXED + STEP + 'Proved: KernSpineImporter.import_token for an arbitrary error history (A-antlr), ErrorListener, ErrorToken.export, the cell step of Importer.run (ErrorToken with verbatim cell and line number, '
+                     'appended to the error list exactly once iff the spine importer raised), the row step (line counter counts empty lines). Bounded: damaged scores; residual class (barlines with trailing text) is a known finding.', '4.12'),
+    'C13': ('other', MIXED + 'Proved: the factorised per-cell pipeline (append_row / export_token contracts are written as spine gate, category gate, cell text), parse_options, dumps keyword mapping, explicit-default lemma. Bounded: whole-document composition.', '4.13'),
+    'C14': ('other', MIXED + 'Proved: frame obligations (nothing visible that existed before the call is written; private state of a worker object is exempt and covered by the history lemmas) on every read-only function under contract. '
+                             'Bounded: sequences of <= 12 read-only operations with deep snapshots; one Exporter object serving several requests.', '4.14'),
+    'C15': ('other', MIXED + STEP + 'Proved: the step of the breadth-first loop of Document.to_transposed for the core class (pitch sub-tokens get T(spelling), every other sub-token copied in order, signifiers kept, children enqueued in order), '
+                     'with T = transposer.transpose as an uninterpreted function (its meaning: C09). Bounded: core class on generated scores; the three classes named by the property are known findings.', '4.15'),
+    'C17': ('other', MIXED + 'Proved: TokensTraversal.__init__/visit, MetacommentsTraversal.visit, tokens_to_encodings. Bounded: token listings against the recursive preorder of the tree, filtered / unique / frequency / comment queries, '
+                     'is_monophonic, on generated scores with global comments (the stack loop of dfs_iterative is not under an invariant).', '4.17'),
+    'C18': ('proof', 'The seven non-kern import_token bodies and createImporter against one dispatch specification, with the outcome of the fresh inner kern importer as uninterpreted functions of the cell (assumed contract A-kern-outcome); '
+                     'two-call history lemmas (a reused importer object answers the second cell as a fresh one).', '4.18'),
+    'C19': ('other', MIXED + STEP + 'Proved: Generic.concat bookkeeping for 1..5 fragments (prefix texts, one pair per fragment, first pair at 0, consecutive, "to" = measure count of the prefix, last import returned), measures_count, '
+                     'the stage range of export_string, the measure index append of Importer.run. Bounded: kern scores cut at barline positions (any number of fragments): same document, pairs export their fragment.', '4.19'),
+    'C20': ('other', MIXED + 'Proved: dump / dumps keyword mapping and hand-over, Generic.store / export / create / read, _write event trace, ekern_to_krn, kern_to_ekern options, import_file. '
+                     'Bounded: load vs loads (LF / CRLF, final newline), dump vs dumps (missing directories), the command-line converters in single-file / directory / recursive mode (files of equal name in different directories) against the API, round trip.', '4.20'),
 }
 NOT_APPLICABLE = {}
